@@ -43,6 +43,7 @@ func c10Scenarios() []c10Scenario {
 			{name: "rgsw", build: c10RGSW},
 			{name: "rlwe.RingPackingEvaluator", build: c10RingPacking},
 			{name: "rlwe.KeyGenerator", build: c10KeyGenerator},
+			{name: "Parameters (accessors)", build: c10Parameters},
 			{name: "bootstrapping.Evaluator", heavy: true, build: c10Bootstrapping},
 		}
 	}
